@@ -108,6 +108,59 @@ def reference(methods):
 LISTS = ("strict_positional_required", "strict_positional_optional", "positional_required", "positional_optional", "keyword_required", "keyword_optional")
 
 
+class OSet:
+    """A set whose iteration order the analysis chooses (ascending or descending by text)."""
+
+    descending = False
+
+    def __init__(self, items=()):
+        self.d = {}
+        for x in items:
+            self.d[x] = True
+
+    def add(self, x):
+        self.d[x] = True
+
+    def update(self, xs):
+        for x in xs:
+            self.d[x] = True
+
+    def discard(self, x):
+        self.d.pop(x, None)
+
+    def pop(self):
+        x = next(iter(self))
+        del self.d[x]
+        return x
+
+    def __iter__(self):
+        return iter(sorted(self.d, key=lambda v: (type(v).__name__, str(v)), reverse=OSet.descending))
+
+    def __len__(self):
+        return len(self.d)
+
+    def __contains__(self, x):
+        return x in self.d
+
+    def __bool__(self):
+        return bool(self.d)
+
+    def __eq__(self, o):
+        return set(self.d) == set(o.d if isinstance(o, OSet) else o)
+
+    def __hash__(self):
+        return 0
+
+    def __sub__(self, o):
+        return OSet(x for x in self.d if x not in o)
+
+    def __and__(self, o):
+        return OSet(x for x in self.d if x in o)
+
+    def __or__(self, o):
+        return OSet(list(self.d) + list(o))
+
+
 def analyse(ctx, scenario, twice=False):
     """Interpret the analyser on one scenario -> Instance after compile(), or 'reject'."""
     repo = ctx.repo
@@ -125,8 +178,9 @@ def analyse(ctx, scenario, twice=False):
     class Sig(Record):
         pass
 
-    genv = {"defaultdict": collections.defaultdict, "itertools": itertools, sub.name: SUBTLER, "type": TYPE}
+    genv = {"defaultdict": collections.defaultdict, "itertools": itertools, sub.name: SUBTLER, "type": TYPE, "set": OSet, "frozenset": OSet}
     hi = HostInterp({}, Record(), {}, globals_env=genv, classes={an.name: methods}, functions={})
+    hi.host_types = hi.host_types + (OSet, collections.defaultdict)
     orig_call = hi.call
 
     def call(e, env):
@@ -217,7 +271,41 @@ def check(ctx, name):
     return problems
 
 
+def check_order_independence(ctx, name):
+    """The six lists do not depend on the iteration order of the analyser's sets, nor (as sets for the keyword
+    lists) on the order in which the methods were added."""
+    scenario = SCENARIOS[name]
+    problems = {"set-order": [], "registration-order": []}
+
+    def snapshot(sc):
+        got, sel = analyse(ctx, sc)
+        if isinstance(got, tuple):
+            return ("reject",)
+        return tuple((l, tuple(got.__dict__[l]) if not l.startswith("keyword") else tuple(sorted(got.__dict__[l]))) for l in LISTS)
+
+    try:
+        OSet.descending = False
+        a = snapshot(scenario)
+        OSet.descending = True
+        b = snapshot(scenario)
+    finally:
+        OSet.descending = False
+    if a != b:
+        diff = [(x, y) for x, y in zip(a, b) if x != y]
+        problems["set-order"].append(f"iterating the analyser's sets in the opposite order changes the result: {diff[0][0]} vs {diff[0][1]}" if diff else "the outcome (accepted / rejected) changes")
+    if len(scenario) > 1:
+        c = snapshot(list(reversed(scenario)))
+        if a != c and ("reject",) not in (a, c):
+            diff = [(x, y) for x, y in zip(a, c) if x != y]
+            problems["registration-order"].append(f"adding the methods in the opposite order changes the result: {diff[0][0]} vs {diff[0][1]}")
+        if (a == ("reject",)) != (c == ("reject",)):
+            problems["registration-order"].append("adding the methods in the opposite order changes whether the method set is accepted")
+    return problems
+
+
 LAW_TEXT = {
+    "set-order": ("the analysis does not depend on the iteration order of its sets of names / positions (interpreted under both orders)", "the entry point's parameter names or order change with the hash seed"),
+    "registration-order": ("the analysis does not depend on the order in which the methods were added", "the entry point differs with registration order"),
     "required-iff-everywhere": ("a parameter is required by the entry point iff every method requires it", "a call some method accepts is rejected before dispatch (or an omitted argument reaches the table)"),
     "partition": ("every declared parameter is listed exactly once, strictly positional / named positional / keyword as the methods declare it", "an argument is dropped, duplicated or passed in the wrong role"),
     "conflicts-rejected": ("inconsistent declarations of one name are rejected when the analysis is compiled", "an argument passed by keyword reaches methods that declare the name at another position"),
@@ -232,12 +320,13 @@ def law(ctx, *names, scenarios=None):
     cache = ctx.cache.setdefault("arganal_checked", {})
     for sc in scenarios or SCENARIOS:
         if sc not in cache:
-            cache[sc] = check(ctx, sc)
+            cache[sc] = dict(check(ctx, sc))
+            cache[sc].update(check_order_independence(ctx, sc))
         probs = cache[sc]
         for name in names:
             if name == "conflicts-rejected" and reference(SCENARIOS[sc]) != "reject":
                 continue
-            if name != "conflicts-rejected" and reference(SCENARIOS[sc]) == "reject":
+            if name not in ("conflicts-rejected", "set-order", "registration-order") and reference(SCENARIOS[sc]) == "reject":
                 continue
             text, why = LAW_TEXT[name]
             ps = probs[name]
